@@ -120,7 +120,9 @@ def build_lscr(handlers, constants=(), props=(), globs=(), scr_num=1, cont_scr_n
     total = pos + len(blob)
     hdr = struct.pack(">iiiihhhhiiiiiihhiii", 0x2d0f36e0, 1, total, total, 0x5c, scr_num, 2, cont_scr_num,
                       -1, 0, 0, 0, 0, 0, factory_name_idx, 0xb, 0, 0x400, 0)
-    hdr += struct.pack(">hhhhhhhhhhhhhh", prb, len(globs), 0, grb, len(handlers), 0, frb, len(constants), 0, crb, 0, len(cdata), 0, con)
+    # (0, x) pairs are the halves of 32-bit fields (the reader looks at the low half only): packed as 32-bit so that offsets and
+    # sizes beyond 32 767 can be written; byte-identical to the former 16-bit pairs for every value below 32 768
+    hdr += struct.pack(">hhihihiii", prb, len(globs), grb, len(handlers), frb, len(constants), crb, len(cdata), con)
     assert len(hdr) == 92
     return hdr + blob
 
